@@ -503,6 +503,17 @@ mp::internal::SignalRepeater::SignalRepeater(const char *s) : in_(0), out_(0) {
 }
 #endif
 
+#ifdef MP_VERIF_HOOKS
+// Verification hook (compiled only with -DMP_VERIF_HOOKS): a test harness can
+// install a call-out that is invoked at named points of SignalHandler,
+// e.g. to raise a signal exactly between two stores.
+extern "C" { void (*mp_verif_sigpoint)(const char *point) = 0; }
+# define MP_VERIF_SIGPOINT(point) \
+  do { if (mp_verif_sigpoint) mp_verif_sigpoint(point); } while (0)
+#else
+# define MP_VERIF_SIGPOINT(point) ((void)0)
+#endif
+
 SignalHandler::SignalHandler(BasicSolver &s)
   : solver_(s),
     message_(fmt::format("\n<BREAK> ({})\n",
@@ -511,21 +522,33 @@ SignalHandler::SignalHandler(BasicSolver &s)
   solver_.set_interrupter(this);
   signal_message_ptr_ = message_.c_str();
   signal_message_size_ = static_cast<unsigned>(message_.size());
+  MP_VERIF_SIGPOINT("ctor:before-install");
   std::signal(SIGINT, HandleSigInt);
+  MP_VERIF_SIGPOINT("ctor:sigint-installed");
   std::signal(SIGTERM, HandleSigInt);
+  MP_VERIF_SIGPOINT("ctor:sigterm-installed");
   stop_ = 0;
+  MP_VERIF_SIGPOINT("ctor:done");
 }
 
 SignalHandler::~SignalHandler() {
+  MP_VERIF_SIGPOINT("dtor:begin");
   solver_.set_interrupter(0);
+  MP_VERIF_SIGPOINT("dtor:interrupter-reset");
   stop_ = 1;
+  MP_VERIF_SIGPOINT("dtor:stop-set");
   handler_ = 0;
+  MP_VERIF_SIGPOINT("dtor:handler-reset");
   signal_message_size_ = 0;
+  MP_VERIF_SIGPOINT("dtor:done");
 }
 
 void SignalHandler::SetHandler(InterruptHandler handler, void *data) {
+  MP_VERIF_SIGPOINT("sethandler:begin");
   handler_ = handler;
+  MP_VERIF_SIGPOINT("sethandler:handler-stored");
   data_ = data;
+  MP_VERIF_SIGPOINT("sethandler:done");
 }
 
 void SignalHandler::HandleSigInt(int sig) {
